@@ -158,18 +158,21 @@ def g_string(rng):
 def g_mapping(rng):
     r = rng.random()
     if r < 0.35:
-        return Node('Enum(Byte, a=1, b=2, c=255)', lambda g: g.choice(['a', 'b', 'c', 1, 2, 255, 7, 0]), size=1, tags=['enum'])
+        return Node('Enum(Byte, a=1, b=2, c=255)', lambda g: g.choice(['a', 'b', 'c', 7, 0] if CANON_VALUES else ['a', 'b', 'c', 1, 2, 255, 7, 0]), size=1, tags=['enum'])
     if r < 0.5:
-        return Node('Enum(Int16ub, E)', lambda g: g.choice(['one', 'two', 'big', 1, 300, 5]), size=2, tags=['enum'])
+        return Node('Enum(Int16ub, E)', lambda g: g.choice(['one', 'two', 'big', 5] if CANON_VALUES else ['one', 'two', 'big', 1, 300, 5]), size=2, tags=['enum'])
     if r < 0.62:
         # multi-bit and overlapping masks, a zero-valued label
         return Node('FlagsEnum(Byte, r=1, w=2, rw=3, hi=0xf0, none=0)',
-                    lambda g: g.choice([dict(r=True, w=False), dict(rw=True), dict(hi=True, r=True), 'r|hi', 'rw', 'none', '', 0, 1, 2, 3, 0x10, 0xf1, 255,
+                    lambda g: g.choice([dict(r=False, w=False, rw=False, hi=False, none=True), dict(r=True, w=True, rw=True, hi=False, none=True),
+                                        dict(r=True, w=False, rw=False, hi=True, none=True)] if CANON_VALUES else
+                                       [dict(r=True, w=False), dict(rw=True), dict(hi=True, r=True), 'r|hi', 'rw', 'none', '', 0, 1, 2, 3, 0x10, 0xf1, 255,
                                         dict(r=False, w=False, rw=False, hi=False, none=False), dict(r=True, w=True, rw=True, hi=False, none=True)]),
                     size=1, tags=['flags'])
     if r < 0.8:
         return Node('FlagsEnum(Byte, a=1, b=2, c=8)',
-                    lambda g: g.choice([dict(a=True, b=False, c=True), dict(a=False), 'a|c', 'b', '', 3, 11, dict()]),
+                    lambda g: g.choice([dict(a=True, b=False, c=True), dict(a=False, b=False, c=False), dict(a=True, b=True, c=True)] if CANON_VALUES else
+                                       [dict(a=True, b=False, c=True), dict(a=False), 'a|c', 'b', '', 3, 11, dict()]),
                     size=1, tags=['flags'])
     return Node('Mapping(Byte, {"x": 1, "y": 2, b"z": 3})', lambda g: g.choice(['x', 'y', b'z']), size=1, tags=['mapping'])
 
@@ -197,6 +200,9 @@ def g_leaf(rng):
 
 
 _names = ['a', 'b', 'c', 'd', 'e', 'f', 'g', 'h']
+
+# when set, label constructs draw only the spelling parse returns (labels for mapped integers, complete flag dictionaries)
+CANON_VALUES = False
 
 
 def g_struct(rng, depth, allow_greedy):
@@ -350,7 +356,9 @@ def g_node(rng, depth, allow_greedy=True):
         w = rng.choice(['ByteSwapped(%s)', 'ProcessXor(0x5a, %s)', 'ProcessXor(b"\\x01\\x02\\x03", %s)', 'Hex(%s)', 'BitsSwapped(%s)'])
         if el.size == 0 and w.startswith('ByteSw'):
             w = 'Hex(%s)'
-        return Node(w % el.src, el.val, size=el.size, tags=['transform'])
+        if w.startswith('ProcessXor') and not allow_greedy:
+            w = 'Hex(%s)'         # ProcessXor reads to the end of the stream: only in tail position or inside a delimiter
+        return Node(w % el.src, el.val, size=el.size, greedy=w.startswith('ProcessXor'), tags=['transform'])
     if r < 0.95:
         return g_bitstruct(rng)
     if r < 0.975:
